@@ -11,7 +11,7 @@ FIX={ # commit -> properties whose checks must alarm
  "282cb9d":["C02"], "089d440":["C08"], "dddc233":["C12"], "ab825ec":["C15"], "78e2e7e":["C17"], "15f27c4":["C17"],
  "9547e31":["C17"], "c9d48a9":["C06"],
 }
-REPO=os.environ.get("SEED_REPO",REPO)
+REPO=os.environ.get("SEED_REPO","/repo")
 only=sys.argv[1:]
 res={}
 for c,props in FIX.items():
